@@ -434,8 +434,10 @@ def impl_coverage(run):
     if os.path.exists(out_json):
         return json.load(open(out_json))
     tgt = os.path.join(CACHE, "cov-target")
-    rc, out = sh("cd %s/harness && RUSTFLAGS='-C instrument-coverage' CARGO_TARGET_DIR=%s cargo +nightly build --offline 2>&1 | tail -3"
-                 % (ROOT, tgt), 1800)
+    # LLVM_PROFILE_FILE during the build too: instrumented proc-macros would otherwise drop
+    # default_*.profraw files into the crate being compiled, i.e. into /repo
+    rc, out = sh("cd %s/harness && LLVM_PROFILE_FILE=%s/build-%%p.profraw RUSTFLAGS='-C instrument-coverage' CARGO_TARGET_DIR=%s "
+                 "cargo +nightly build --offline 2>&1 | tail -3; rm -f %s/build-*.profraw" % (ROOT, tgt, tgt, tgt), 1800)
     binp = os.path.join(tgt, "debug", "verif-harness")
     if not os.path.exists(binp):
         return None
@@ -674,6 +676,10 @@ def replay(prop, path):
     return 0
 
 
+def monitors_used(spec):
+    return bool(spec.get("monitors") or spec.get("monitor"))
+
+
 def check(prop, tier, seed):
     t0 = time.time()
     spec = props.PROPS[prop]
@@ -723,6 +729,9 @@ def check(prop, tier, seed):
     if disagreements:
         i = disagreements[0]
         broken.append("correspondence:%s on program #%d (%s)" % (spec["projection"], i, stats["disagreement_where"]))
+    if stats.get("unreadable") and monitors_used(spec):
+        broken.append("monitors: the implementation's output on program #%d (and %d more) could not be read by the monitors: %s"
+                      % (stats["unreadable"][0], len(stats["unreadable"]) - 1, run.mon[stats["unreadable"][0]][:120]))
 
     violation_line = None
     if alarms:
